@@ -520,7 +520,7 @@ pub fn nth_subset<const N: usize>(mut id: u64) -> [u8; N] {
 
 /// 64-bit values built from equal-width fields (bytes, 16-bit and 32-bit words, nibbles): every field is
 /// empty or one of two field values A, B (all 3^n assignments for 8, 4 and 2 fields), A from a palette of
-/// single bits, small numbers, masks and seeded values and B equal to A, its complement, 1 or seeded; plus each
+/// single bits, small numbers, masks and seeded values and B equal to A, its complement, its negative, 1 or seeded; plus each
 /// palette value replicated over all fields, the even ones, the odd ones and either half. Code that
 /// folds, compares or counts a 64-bit value word by word (XOR/OR folds, bit-sliced counters, per-byte tables)
 /// goes wrong on values whose fields repeat or cancel - which neither few-bit sets, power-of-two
@@ -555,7 +555,7 @@ pub fn field_structured_u64(seed: u64) -> Vec<u64> {
             out.push(place(&|f| if f < n / 2 { a } else { 0 }));
             out.push(place(&|f| if f >= n / 2 { a } else { 0 }));
             if n <= 8 {
-                let bs = [a, !a & mask, 1, rng.next() & mask];
+                let bs = [a, !a & mask, 1, rng.next() & mask, a.wrapping_neg() & mask]; // equal, complement, one, seeded, two's-complement negative (fields summing to 2^w)
                 for &b in &bs {
                     let total = 3usize.pow(n as u32);
                     for code in 0..total {
